@@ -163,7 +163,9 @@ PROPS = {
         'mc_quick': ['MC_quick.cfg'], 'sim': None,
         'title': 'Internal OS errors',
         'fault_units': (500, 6000, 4, 0),      # base histories quick/thorough, fault points per history (0 = all)
-        'fault_extra': [('faultretry', 120, 1500, 0, 0)],   # programs that retry / fall back after a caught error; all points
+        # programs that retry / fall back after a caught error (all fault points); builds that move more than 256 files
+        # aside, a fault at the creation of one of the backup store's directories (sampled / thorough: all)
+        'fault_extra': [('faultretry', 120, 1500, 0, 0), ('bulkfault', 1, 2, 16, 0, ['makedirs'])],
         'units': [],
         'owned': set(CLAUSE_OWNER) | {'FaultSurfaces', 'FaultLeavesConsistent', 'CacheReplacedOnlyOnSuccess'},
         'nontrivial': lambda st, sc: sc.get('fault_at') is not None,
@@ -179,7 +181,7 @@ PROPS = {
         'fault_units': (400, 5000, 0, 0),
         'fault_profile': 'persist',
         'fault_calls': ['gzip.open:w', 'gzip.write'],
-        'units': [('persist', 3000, 40000), ('regress', 0, 0)],
+        'units': [('persist', 3000, 40000), ('mutate', 500, 6000), ('regress', 0, 0)],
         'owned': {'PersistedEqualsReturned', 'CacheWritten', 'CacheReplacedOnlyOnSuccess', 'ExecOnlyIfJustified',
                   'ReuseOnlyIfValid', 'ReturnMatches', 'NoSpuriousException', 'FinalTreeMatches', 'CleanExact',
                   'RollbackRestores', 'FaultSurfaces', 'AnswerMatches', 'OutputsNotRewritten',
@@ -251,7 +253,7 @@ PROPS = {
         'mc_quick': ['MC_quick.cfg', 'MC_self_q.cfg'], 'mc_thorough': [('MC_nest.cfg', 1500), ('MC_self.cfg', 900)],
         'sim': [('MC_sim.cfg', 100, 1500, 60), ('MC_sim_self.cfg', 30, 500, 60)],
         'title': 'build_file contract',
-        'units': [('nested', 1500, 20000), ('swap', 600, 8000), ('bfcontract', 2000, 30000), ('probe', 300, 5000), ('selfnest', 800, 10000), ('regress', 0, 0)],
+        'units': [('nested', 1500, 20000), ('swap', 600, 8000), ('bfcontract', 2000, 30000), ('probe', 300, 5000), ('selfnest', 800, 10000), ('bulk', 2, 12), ('regress', 0, 0)],
         'owned': {'TargetFileAfterOk', 'TargetAbsentAfterFail', 'OutcomeMatches', 'PathNormalised',
                   'SetupErrClass', 'SetupFailExpected', 'ExcIdentity', 'ReturnMatches', 'AnswerMatches',
                   'FinalTreeMatches', 'RollbackRestores', 'CleanExact', 'ExceptionClassMatches',
